@@ -3,6 +3,7 @@ package main
 import (
 	"flag"
 	"fmt"
+	"go/types"
 	"os"
 	"runtime"
 	"sort"
@@ -34,6 +35,8 @@ func main() {
 		os.Exit(cmdCheck(os.Args[2:]))
 	case "list":
 		cmdList(os.Args[2:])
+	case "sigs":
+		cmdSigs(os.Args[2:])
 	default:
 		fmt.Fprintln(os.Stderr, "unknown command")
 		os.Exit(2)
@@ -175,4 +178,55 @@ func showModel(m Model) string {
 		sb.WriteString("] ")
 	}
 	return sb.String()
+}
+
+// cmdSigs prints contract-style signature lines for functions matching a key prefix.
+func cmdSigs(args []string) {
+	prog, err := LoadProgram("/repo", "/verif")
+	if err != nil {
+		fmt.Fprintln(os.Stderr, err)
+		os.Exit(2)
+	}
+	var keys []string
+	for k := range prog.Funcs {
+		keys = append(keys, k)
+	}
+	sort.Strings(keys)
+	for _, k := range keys {
+		ok := len(args) == 0
+		for _, a := range args {
+			if strings.Contains(k, a) {
+				ok = true
+			}
+		}
+		if !ok {
+			continue
+		}
+		fn := prog.Funcs[k]
+		if fn.Synthetic != "" {
+			continue
+		}
+		q := func(p *types.Package) string {
+			if fn.Pkg != nil && p == fn.Pkg.Pkg {
+				return ""
+			}
+			return p.Name()
+		}
+		var ps []string
+		start := 0
+		recv := ""
+		if fn.Signature.Recv() != nil {
+			recv = "(" + fn.Params[0].Name() + " " + types.TypeString(fn.Params[0].Type(), q) + ") "
+			start = 1
+		}
+		for _, p := range fn.Params[start:] {
+			ps = append(ps, p.Name()+" "+types.TypeString(p.Type(), q))
+		}
+		var rs []string
+		for i := 0; i < fn.Signature.Results().Len(); i++ {
+			r := fn.Signature.Results().At(i)
+			rs = append(rs, types.TypeString(r.Type(), q))
+		}
+		fmt.Printf("%s|func %s%s(%s)|%s\n", k, recv, fn.Name(), strings.Join(ps, ", "), strings.Join(rs, ","))
+	}
 }
